@@ -189,6 +189,7 @@ theorem no_clientUpdate (c : Cfg) (s : St) (x : Cid) (v : Val) (sd : Option Addr
     · exact no_writeVal c _ x v none h1
     · exact no_writeVal c _ x _ none h1
     · exact no_writeVal c _ _ _ none h1
+    · exact h1
   have h3 : NoOrphan (match (runCallback c (setVal s x v) x v).value x with
     | some u => if (runCallback c (setVal s x v) x v).value x ≠ s.value x then publish c (runCallback c (setVal s x v) x v) x u sd
                 else runCallback c (setVal s x v) x v
@@ -276,8 +277,12 @@ theorem no_putChars (c : Cfg) (hr : c.fixResub = true) (s : St) (p : ObjId) (x :
   simp only [putChars]
   split
   · exact h1
-  · simp only [putVal]
-    exact no_updObj _ p _ (no_discardStale c _ _ x (no_clientUpdate c _ x _ _ h1)) rfl (fun _ => Or.inr rfl)
+  · split
+    · simp only [failVal]; split
+      · exact h1
+      · exact no_setValue _ _ h1
+    · simp only [putVal]
+      exact no_updObj _ p _ (no_discardStale c _ _ x (no_clientUpdate c _ x _ _ h1)) rfl (fun _ => Or.inr rfl)
 
 theorem no_onReq (c : Cfg) (hr : c.fixResub = true) (s : St) (p : ObjId) (r : Req) (h : NoOrphan s) (hl : Live s p) :
     NoOrphan (onReq c s p r).1 := by
@@ -289,7 +294,7 @@ theorem no_onReq (c : Cfg) (hr : c.fixResub = true) (s : St) (p : ObjId) (r : Re
     · exact no_closeP c s p h
     · rename_i x ev val cl
       simp only [onPut]
-      have hh : NoOrphan (if (s.obj p).verified then respond (putChars c s p x ev val) p 204 Body.none
+      have hh : NoOrphan (if (s.obj p).verified then respond (putChars c s p x ev val) p (putCode c [(x, ev, val)]) (putBody c [(x, ev, val)])
            else respond s p 401 Body.none).1 := by
         split
         · exact no_respond _ p _ _ (no_putChars c hr s p x ev val h hl)
@@ -299,7 +304,7 @@ theorem no_onReq (c : Cfg) (hr : c.fixResub = true) (s : St) (p : ObjId) (r : Re
       · exact hh
     · rename_i qs cl
       simp only [onPutMany]
-      have hh : NoOrphan (if (s.obj p).verified then respond (putAll c s p qs) p 204 Body.none
+      have hh : NoOrphan (if (s.obj p).verified then respond (putAll c s p qs) p (putCode c qs) (putBody c qs)
            else respond s p 401 Body.none).1 := by
         split
         · have ha : NoOrphan (putAll c s p qs) ∧ Live (putAll c s p qs) p := by
@@ -349,7 +354,9 @@ theorem no_step (c : Cfg) (hr : c.fixResub = true) (s : St) (e : Ev) (h : NoOrph
     simp only [step, handOff]
     split
     · exact h
-    · exact no_publish c _ _ _ none h
+    · split
+      · exact h
+      · exact no_publish c _ _ _ none h
   | timerFire p =>
     simp only [step]; split
     · exact no_sendEvents s p h
